@@ -4,7 +4,7 @@ Model of security/cert/auth.go (`Authority`): CreatePartialCert, CreateQuorumCer
 CreateTimeoutCert, CreateAggregateQC, VerifyPartialCert, VerifyQuorumCert, VerifyTimeoutCert,
 VerifyAggregateQC, findHighestValidQC, VerifyAnyQC — over the symbolic signatures of Crypto.lean.
 
-Repairs modelled: `fix: QC view must equal the certified block's view`,
+Repairs modelled: `fix: QC view must equal the certified block's view` (for the genesis block: view 0),
 `fix: reject certificates without signature instead of dereferencing nil` (VerifyTimeoutCert,
 VerifyAnyQC; VerifyAggregateQC itself still panics on a nil signature, as an existing test demands).
 Block hashes are names (`Hash`); a block's bytes-to-sign are `blkMsg hash` (the hash is computed
@@ -75,7 +75,7 @@ def verifyPC (E : CertEnv) (sig : Option Sig) (h : Hash) : VRes Unit :=
 
 /-- `VerifyQuorumCert`. -/
 def verifyQC (E : CertEnv) (qc : QC) : Bool :=
-  if qc.hash == genesisHash then true else
+  if qc.hash == genesisHash then qc.view == 0 else
   match qc.sig with
   | none => false
   | some s =>
